@@ -73,3 +73,32 @@ class Sim:
 
 
 SIM = Sim()
+
+
+class FaultyLinalgSolve(object):
+    """a usually-successful internal call fails once: the k-th torch.linalg.solve raises what LAPACK raises for a
+    singular system; later calls go through.  Installed by a check for the duration of one call."""
+
+    def __init__(self, k):
+        import torch
+        self.k = k
+        self.n = 0
+        self.fired = 0
+        self.orig = torch.linalg.solve
+
+    def __call__(self, *a, **kw):
+        import torch
+        self.n += 1
+        if self.n == self.k:
+            self.fired += 1
+            raise torch._C._LinAlgError("injected: linalg.solve: The solver failed because the input matrix is singular.")
+        return self.orig(*a, **kw)
+
+    def __enter__(self):
+        import torch
+        torch.linalg.solve = self
+        return self
+
+    def __exit__(self, *a):
+        import torch
+        torch.linalg.solve = self.orig
